@@ -542,8 +542,12 @@ func (b *Buffer) cleanup() {
 					}
 				}()
 
-				// wait for the timer to expire
-				<-timer.C
+				// wait for the timer to expire, or for the buffer to be closed (there is nothing left to clean up for,
+				// and this goroutine would otherwise outlive the buffer by up to one cooldown)
+				select {
+				case <-timer.C:
+				case <-b.ctx.Done():
+				}
 				verifHook("buffer.cleanup.timer")
 			}()
 		}
